@@ -27,6 +27,11 @@ def mc_all(ctx, q):
         cfg = ("SPECIFICATION Spec\nCONSTANTS\n  N = %d\n  Num = %d\n  FailAt = %d\nINVARIANTS\n  Ordered\n  NoUseAfterPut\n  ClosedMeansFlushed\n"
                "  WorkersNeverBlockedAfterClose\nPROPERTY EventuallyAllDone\n" % (n, num, f))
         ctx.mc("PipelineW", cfg_text=cfg, timeout=1800)
+    # several lives of one Writer (Close / Reset, early Close, a new orderer while old workers finish)
+    for n, num, f, lives in ((4, 2, 2, 3), (3, 3, 0, 3)) + (() if q else ((5, 2, 0, 3), (4, 2, 4, 4), (4, 3, 1, 3))):
+        cfg = ("SPECIFICATION SpecL\nCONSTANTS\n  N = %d\n  Num = %d\n  FailAt = %d\n  MaxLives = %d\nINVARIANTS\n  Ordered\n  NoUseAfterPut\n"
+               "  ClosedMeansFlushedL\n  LivesDoNotMix\n  WorkersNeverBlockedAfterCloseL\nPROPERTY EventuallyDoneL\n" % (n, num, f, lives))
+        ctx.mc("PipelineWL", cfg_text=cfg, timeout=1800)
     for n, num, df, sf, em in ((3, 2, 0, 0, "{}"), (4, 2, 2, 0, "{}"), (4, 2, 0, 3, "{2}"), (3, 2, 0, 4, "{}"), (0, 2, 0, 0, "{}"), (3, 2, 0, 0, "{3}"), (4, 2, 3, 0, "{2}")) + \
             (() if q else ((5, 2, 3, 0, "{}"), (4, 3, 4, 0, "{1}"), (5, 3, 1, 4, "{}"), (6, 2, 0, 0, "{6}"))):
         cfg = ("SPECIFICATION Spec\nCONSTANTS\n  N = %d\n  Num = %d\n  DecodeFailAt = %d\n  SourceFailAt = %d\n  EmptyBlocks = %s\nINVARIANTS\n  Ordered\n  FinalResult\n"
@@ -127,19 +132,20 @@ def make_cases(ctx, rnd):
 def to_trace(c, r, race=""):
     """hook events of one run -> trace events for the pipeline trace specifications"""
     base = {"hung": r["hung"], "panicked": r.get("panicked", ""), "race": race, "poison": r["poison"], "leaked": r["leaked"]}
-    if c.get("lives") or r["hung"]:
-        good = r.get("status") == "ok" or c.get("lives", False)
-        return [dict(base, ev="psens", case=c["id"], good=bool(good) and not r["hung"])]
+    if r["hung"]:
+        return [dict(base, ev="psens", case=c["id"], good=False)]
     ev = [{"ev": "pnew", "case": c["id"]}]
     events = r["events"] or []
     if not any(e[1] in ("p.queue", "r.enqueue", "r.finq", "p.closeq") for e in events):
         # the pipeline never started (error before the first block): sensors only
-        good = (r.get("outcome") == "error" and c["cfg"].get("failat", 0) > 0 or bool(c.get("ops"))) if c["kind"] == "reader" else r.get("status") == "ok" or r.get("injected", False)
+        good = (r.get("outcome") == "error" and c["cfg"].get("failat", 0) > 0 or bool(c.get("ops"))) if c["kind"] == "reader" else \
+            r.get("status") == "ok" or r.get("injected", False) or c.get("lives", False)
         return [dict(base, ev="psens", case=c["id"], good=bool(good))]
     if c["kind"] == "writer":
-        sent = next((e[2] for e in events if e[1] == "p.closeq"), None)
-        ren = lambda ch: NMAX + 1 if ch == sent else ch
-        data_of, block_of = {}, {}
+        # blocks are numbered in submission order across the lives of the Writer; every sentinel channel is NMAX + 1
+        sentinels = {e[2] for e in events if e[1] == "p.closeq"}
+        number, data_of, block_of = {}, {}, {}
+        closed = False
         for seq, site, ch, buf, ln in events:
             if site == "pool.get":
                 continue
@@ -152,11 +158,21 @@ def to_trace(c, r, race=""):
                 ev.append({"ev": "pool.put", "case": c["id"], "ch": 0, "blk": blk, "kind": kind})
                 continue
             if site == "p.queue":
-                data_of[buf] = ch
+                number[ch] = len(number) + 1
+            n = NMAX + 1 if ch in sentinels else number.get(ch, 0)
+            if site in ("p.queue", "p.closeq") and closed:
+                ev.append({"ev": "preopen", "case": c["id"], "ch": 0})
+                closed = False
+            if site == "p.closed":
+                closed = True
+            if site == "p.queue":
+                data_of[buf] = n
             if site == "o.write" and buf and buf not in data_of:
-                block_of[buf] = ch
-            ev.append({"ev": site, "case": c["id"], "ch": ren(ch)})
-        ev.append(dict(base, ev="pend", case=c["id"], status=r["status"], same=r["same"], injected=r["injected"]))
+                block_of[buf] = n
+            ev.append({"ev": site, "case": c["id"], "ch": n})
+        lives = bool(c.get("lives"))
+        ev.append(dict(base, ev="pend", case=c["id"], status=r["status"], same=bool(r.get("lastSegOK")) if lives else r["same"],
+                       injected=r["injected"], lives=lives))
     else:
         sent = next((e[2] for e in events if e[1] == "r.finq"), None)
         ren = lambda ch: NMAX + 1 if ch == sent else ch
